@@ -127,7 +127,7 @@ theorem breakCR_sig (inp : Bytes) (c : Common) (r : Regs) : PlumbSig (breakCR in
 
 
 /-- the enter-action prelude of `stateFn` -/
-def sfPre {κ : Type} (env : Env κ) (inp : Bytes) (sd : StateDef) (m : M κ) : StepRes κ :=
+def sfPreC {κ : Type} (env : Env κ) (inp : Bytes) (sd : StateDef) (m : M κ) : StepRes κ :=
   if !sd.enter.isEmpty && !m.c.entered then
     let m1 := { m with c := { m.c with nextPos := m.c.nextPos + 1 } }
     let r := runCalls env inp sd.enter m1
@@ -160,8 +160,8 @@ theorem stateFn_split {κ : Type} (env : Env κ) (inp : Bytes) (m : M κ) :
     stateFn env inp m =
       match env.tbl.state? m.c.state with
       | none => (m, some (.err (.panic "unknown state")))
-      | some sd => sfRest env inp sd (sfPre env inp sd m) := by
-  unfold stateFn sfRest sfPre
+      | some sd => sfRest env inp sd (sfPreC env inp sd m) := by
+  unfold stateFn sfRest sfPreC
   cases env.tbl.state? m.c.state with
   | none => rfl
   | some sd => rfl
@@ -451,9 +451,9 @@ theorem dispatch_cong (h : C.Ok env₁ env₂ inp) (ch : Option UInt8) (arms : L
 
 theorem sfPre_cong (h : C.Ok env₁ env₂ inp) (sd : StateDef) (hc : sd.enter.all Call.checked = true)
     (m₁ : M κ₁) (m₂ : M κ₂) (hm : C.MR m₁ m₂) :
-    C.Out (sfPre env₁ inp sd m₁) (sfPre env₂ inp sd m₂) := by
+    C.Out (sfPreC env₁ inp sd m₁) (sfPreC env₂ inp sd m₂) := by
   obtain ⟨c, r, x₁, x₂, rfl, rfl, hj, hx⟩ := hm.cases
-  unfold sfPre
+  unfold sfPreC
   dsimp only
   by_cases hcond : (!sd.enter.isEmpty && !c.entered) = true
   · simp only [hcond, if_true]
